@@ -8,7 +8,7 @@
 (* undefined) that the driver realises with DataElement::new_with_len; the  *)
 (* expectation depends on the values only.                                  *)
 (***************************************************************************)
-EXTENDS CommandSet, Json
+EXTENDS CommandSet, Json, FiniteSets
 
 (* slots: standard command attributes (PS3.7 E.1) *)
 Slots == << [tag |-> <<0, 1>>,    vr |-> "UL"],   \* (0000,0001) Command Length to End (retired)
@@ -53,15 +53,40 @@ Pick(S, j, i) == IF i > Len(Slots) THEN <<>>
                  THEN LET v == Value(Slots[i].vr, (j + 4 * i) % NOpts(Slots[i].vr))
                           d == Decls[((j + 2 * i) % 5) + 1]
                       IN << [tag |-> Slots[i].tag, vr |-> Slots[i].vr, v |-> v,
-                             decl |-> d, dlen |-> DeclLen(d, Slots[i].vr, v)] >> \o Pick(S, j, i + 1)
+                             decl |-> d, dlen |-> DeclLen(d, Slots[i].vr, v),
+                             form |-> IF Slots[i].vr \in TextVR /\ Len(v) = 1 /\ (j + i) % 2 = 0 THEN "str" ELSE "plain"] >>
+                           \o Pick(S, j, i + 1)
                  ELSE Pick(S, j, i + 1)
 
-VARIABLES S, j
-Init == S \in Subsets /\ j \in 0..14
-Next == UNCHANGED <<S, j>>
-Spec == Init /\ [][Next]_<<S, j>>
+(* parity family: every text element is one single string (built as PrimitiveValue::Str, whose *)
+(* in-memory length is the raw, possibly odd, character count); bit (rank of the text slot)    *)
+(* of the mask j decides odd or even length, so the number of odd-length values ranges over    *)
+(* 0 .. all for every element set                                                             *)
+OddLens(vr) == IF vr = "AE" THEN <<1, 3, 5, 15>> ELSE <<1, 3, 5, 63>>
+EvenLens(vr) == IF vr = "AE" THEN <<2, 4, 6, 16>> ELSE <<2, 4, 6, 64>>
+TextRank(i) == Cardinality({k \in 1..i : Slots[k].vr \in TextVR})        \* 1..4 for the text slots
+RECURSIVE PickParity(_, _, _)
+PickParity(S, j, i) ==
+    IF i > Len(Slots) THEN <<>>
+    ELSE IF i \in S
+    THEN LET vr == Slots[i].vr
+             r == TextRank(i)
+             odd == (j \div (2 ^ (r - 1))) % 2 = 1
+             v == IF vr \in TextVR
+                  THEN << Text(vr, IF odd THEN OddLens(vr)[((j + i) % 4) + 1] ELSE EvenLens(vr)[((j + i) % 4) + 1]) >>
+                  ELSE << Num(vr, 1) >>
+         IN << [tag |-> Slots[i].tag, vr |-> vr, v |-> v, decl |-> "exact", dlen |-> DeclLen("exact", vr, v),
+                form |-> IF vr \in TextVR THEN "str" ELSE "plain"] >> \o PickParity(S, j, i + 1)
+    ELSE PickParity(S, j, i + 1)
 
-elems == Pick(S, j, 1)
+VARIABLES S, j, fam
+Init == /\ fam \in {"diag", "parity"}
+        /\ S \in Subsets /\ (fam = "parity" => Cardinality(S) >= 2)
+        /\ j \in 0..(IF fam = "parity" THEN 15 ELSE 14)
+Next == UNCHANGED <<S, j, fam>>
+Spec == Init /\ [][Next]_<<S, j, fam>>
+
+elems == IF fam = "parity" THEN PickParity(S, j, 1) ELSE Pick(S, j, 1)
 (* the reference is self-consistent: the written set parses and its group length is its size - 12 *)
 RefConsistent == LET w == CommandWire(elems) IN SelfConsistent(w) /\ Len(w) = 12 + GroupLength(elems)
 Emit == PrintT(<<"CASE", ToJson([kind |-> "cmd", elems |-> elems, gl |-> GroupLength(elems),
